@@ -56,8 +56,9 @@ pub struct MemCounters {
     pub live_blocks: u64,
 }
 impl MemCounters {
+    /// calls that may fail by contract ("may panic if fail to allocate")
     pub fn calls(&self) -> u64 {
-        self.expands + self.expands_exact + self.resizes
+        self.expands + self.expands_exact + self.resizes + self.builds_sized
     }
 }
 
@@ -300,7 +301,7 @@ pub fn on_call(call: Call, layout_size: usize, layout_align: usize) -> Result<()
                 layout_size, layout_align, e.elem_size, e.elem_align
             ));
         }
-        if matches!(call, Call::Expand | Call::ExpandExact | Call::Resize) && e.fail_at != 0 && e.c.calls() >= e.fail_at && !std::thread::panicking() {
+        if matches!(call, Call::Expand | Call::ExpandExact | Call::Resize | Call::BuildSized) && e.fail_at != 0 && e.c.calls() >= e.fail_at && !std::thread::panicking() {
             e.fail_at = 0;
             e.c.injected_failures += 1;
             return Err(());
